@@ -102,6 +102,10 @@ def execute(case, ctx):
         r = ref.cdagc(i, j)
         if not close(v, r, 1):
             return fail("EnsembleAverage(c+_%d c_%d) = %r, reference %r" % (i, j, v, r), "ensavg")
+        for key, what in (("v2", "after a second prepare()"), ("vcopy", "of a copy")):
+            v2 = cx(run.q(("ea", k))[key])
+            if not close(v2, r, 1):
+                return fail("EnsembleAverage(c+_%d c_%d) %s = %r, reference %r" % (i, j, what, v2, r), "ensavg-repeat")
         if i != j and abs(r) > 1e-6:
             offnz = True
     if beta * ref.bandwidth > 700 or abs(case["offset"]) * beta > 700:
